@@ -183,6 +183,10 @@ def _collect_inline_segments(
     elif hasattr(element, "children") and isinstance(element.children, str):  # pyright: ignore
         # Any other element with string content — include for context.
         segments.append((element.children, None))  # pyright: ignore
+    else:
+        # An element without content of its own (a footnote reference): an empty marker, see
+        # `rewrite_text_across_inlines()`.
+        segments.append(("", None))
 
     return segments
 
@@ -226,6 +230,13 @@ def rewrite_text_across_inlines(doc: Document, rewrite_func: Callable[[str], str
 
         if not segments:
             return
+
+        # A source line that holds nothing but an element without content (a footnote
+        # reference) must not look like a blank line, i.e. a paragraph break, in the composite:
+        # a dash stands for it there (context only; quotes may open and close next to a dash).
+        for k in range(1, len(segments)):
+            if segments[k] == ("", None) and segments[k - 1][0].endswith("\n"):
+                segments[k] = ("\u2014", None)
 
         # Build composite text from all segments
         composite = "".join(text for text, _ in segments)
